@@ -666,6 +666,10 @@ func execTwin(cfg *Cfg, o *harness.Outcome) {
 	perRes := len(cfg.Others)%2 == 1
 	yFirst := cfg.P2%2 == 0
 	variant := (cfg.P1 + cfg.P2 + len(cfg.Others)) % 4 // 0: Y has its own ID; 1: Y has no ID; 2: see twinStolen; 3: renamed
+	if variant == 2 && cfg.Kind == kStandalone && cfg.RDup {
+		strategyEdit(cfg, o, perRes)
+		return
+	}
 	if variant == 2 && cfg.Kind == kStandalone {
 		twinStolen(cfg, o, perRes, yFirst)
 		return
@@ -819,6 +823,55 @@ func twinStolen(cfg *Cfg, o *harness.Outcome, perRes, yFirst bool) {
 	o.Nontrivial = true
 	if request() {
 		o.Fail("C14.modified-rule-lost-statistics", 0, "rule X (threshold %d, private window) had admitted %d requests; one load lowered its threshold to %d and added rule Y with the fields X had before (listed %s X). X keeps its window (its statistic parameters are unchanged) and holds %d of %d, yet the next request was admitted: the new rule Y was given X's window", cfg.P1+1, cfg.P1, cfg.P1, map[bool]string{true: "before", false: "after"}[yFirst], cfg.P1, cfg.P1)
+	}
+}
+
+// strategyEdit: rule X (Direct, Reject, threshold P1, a statistic interval of its own) has admitted P1 requests. It is
+// edited into a warm-up rule and back - the statistic interval never changes - all within one millisecond. X holds P1
+// of P1: the next request must be rejected. (Intervals just below the length of the global statistic are where a
+// warm-up rule and a Direct rule were once thought to need different statistics.)
+func strategyEdit(cfg *Cfg, o *harness.Outcome, perRes bool) {
+	interval := []uint32{9900, 9600, 3700}[cfg.P1%3]
+	mk := func(warm bool) *flow.Rule {
+		r := &flow.Rule{ID: "X", Resource: res, TokenCalculateStrategy: flow.Direct, ControlBehavior: flow.Reject, Threshold: float64(cfg.P1), StatIntervalInMs: interval}
+		if warm {
+			r.TokenCalculateStrategy, r.WarmUpPeriodSec, r.WarmUpColdFactor = flow.WarmUp, 10, 3
+		}
+		return r
+	}
+	load := func(r *flow.Rule) {
+		harness.Call(o, "C14.load-panicked", 0, func() {
+			if perRes {
+				_, _ = flow.LoadRulesOfResource(res, []*flow.Rule{r})
+			} else {
+				_, _ = flow.LoadRules([]*flow.Rule{r})
+			}
+		})
+	}
+	request := func() (admitted bool) {
+		harness.Call(o, "C14.panic", 0, func() {
+			if e, _ := sentinel.Entry(res, harness.EntryOpts(1, false, nil, nil, nil)...); e != nil {
+				admitted = true
+				e.Exit()
+			}
+		})
+		return
+	}
+	load(mk(false))
+	for i := 0; i < cfg.P1 && !o.Failed(); i++ {
+		if !request() {
+			return
+		}
+	}
+	load(mk(true))
+	load(mk(false))
+	if o.Failed() {
+		return
+	}
+	o.Probe("rule_edited_into_another_strategy_and_back")
+	o.Nontrivial = true
+	if request() {
+		o.Fail("C14.modified-rule-lost-statistics", 0, "rule X (Direct, threshold %d, statistic interval %d ms) had admitted %d requests; it was edited into a warm-up rule and back within the same millisecond, its statistic interval unchanged. X holds %d of %d in its window, yet the next request was admitted: an edit dropped its statistics", cfg.P1, interval, cfg.P1, cfg.P1, cfg.P1)
 	}
 }
 
